@@ -67,6 +67,14 @@ CHECKS = {
    text="TLC enumerates scenarios: command (build, lint, breaking, format --exit-code) x up to two planted problems (syntax error, malformed import caught by the import scanner, missing import, lint violations in two files, a lint range spanning lines whose end column is smaller than its start column, breaking change, deleted file, format difference) x operational error (unknown flag, missing input, unreadable configuration) x input spelling (., absolute, ./, file#include_package_files=true) x a directory whose name has a space, quotes, angle brackets, an ampersand, non-ASCII and a newline; it checks that the three exit classes partition the scenarios and emits the class and whether annotations are printed; the harness materialises every scenario, runs the buf binary built from the tree once per --error-format, compares the exit class, requires JSON lines and JUnit XML to be well-formed, and compares count, order, path, start (and, where carried, end) position, rule ID and message of every annotation across formats.",
    note="Workspaces come from planted shapes; annotation messages are those the planted problems produce (the hostile text is in the path); text/msvs/github-actions are not parsed back for the path that contains a newline. format's parse failure exits 1 (named deviation in the spec, pinned by a repository test).",
    ref="4/C20"),
+ "C03": dict(engine="breaking", technique="TLC on Breaking.tla (schema versions as slot valuations, histories of edits, Expected(p, c) per documented rule) with every version pair replayed on bufcheck.Client.Breaking for 3 config versions x 4 categories and single-rule configs",
+   text="Breaking.tla models a schema version as a valuation of 75 slots of a fixed five-file skeleton (field type / name / JSON name / cardinality / oneof membership / default / jstype, map value type, message- and enum-typed fields incl. a namesake enum with more values, deletions of fields and enum values with every reservation variant incl. an aliased number, reserved ranges and names, nested and top-level messages / enums / services / RPCs / oneofs / extensions / extension ranges, RPC request / response / streaming / idempotency, 16 tracked file options, file package and syntax, file deletion with and without the package surviving, a message moving between files of one package, additive slots, cosmetic styles); a history appends one edited version per step; TLC enumerates every history with up to 3 versions, every value pair of every slot and at most 1 (thorough: 2) non-additive edits, checks TypeOK, CompatibleExpectsNothing, ExpectedRulesExist, TablesNested and CategoryNesting on the specification, and emits for every (older, newer) pair the expected annotations (rule ID, names the message must carry, anchor element); the harness renders and compiles each version and requires each expected annotation, located at the anchor, under every configuration version x category whose documented table (BreakingTables.tla) contains the rule and under the single-rule configuration.",
+   note="Expected is a lower bound per pair; schemas are versions of one skeleton (proto2 and proto3 files; editions features are not part of it); the category tables are a static transcription.",
+   ref="4/C03"),
+ "C04": dict(engine="breaking", technique="TLC on Breaking.tla (additive / cosmetic steps, chains, category ordering) with every version pair replayed on bufcheck.Client.Breaking for 3 config versions x 4 categories",
+   text="Same specification and histories as C03. For every version compared with itself, and for every pair whose steps are all additive (new file, message, nested message, enum, enum value, field, oneof with new fields, reserved range, RPC, service) or cosmetic (comments everywhere, re-indentation, reordered top-level declarations), incl. chains compared against every earlier version, the real detector must report nothing under v1beta1 / v1 / v2 x FILE / PACKAGE / WIRE_JSON / WIRE; for every pair (also breaking ones, every value pair of every slot) clean(FILE) => clean(PACKAGE) => clean(WIRE_JSON) => clean(WIRE) must hold on the real results.",
+   note="Compatible(p, c) is the specification's classification of slot transitions; it is never inferred from the code.",
+   ref="4/C04"),
 }
 
 NOT_APPLICABLE = {}
